@@ -50,11 +50,11 @@ CLAIMED = {
    note=TRUSTED),
  "C16": dict(cat="fault_enumeration", design="5/C16",
    technique="deterministic port-fault simulation: real SerialSignBus over a simulated serial device, failure injected at each port operation, oracle over the port's operation log",
-   text="Conversations of 1-5 messages (every message kind x reply-line kind: known, unknown, malformed, bad checksum, wrong length, timeout, EOF) run on ONE real SerialSignBus over the simulated port with fragmented reads, EINTR and short writes; earlier steps may suffer a port failure so that leftovers meet the next exchange; then the last step gets a hard failure at every port operation index in turn. Reply lines also come in lower / mixed case, blank, bare-LF, partial and as KiB-long noise, and the simulator uses its own knowledge of each line it wrote instead of the tree's decoder. Judged on the port log: exactly the frame encoding + CRLF written once, a read iff hello/query/request, exactly one line consumed (a sentinel line stays), result = decoding of that line, failures never turned into Ok. Placements exhaustive per case; cases sampled.",
+   text="Conversations of 1-5 messages (every message kind x reply-line kind: known, unknown, malformed, bad checksum, wrong length, timeout, EOF) run on ONE real SerialSignBus over the simulated port with fragmented reads, EINTR and short writes (the port also takes gather writes natively, so a short write may end between two buffers); earlier steps may suffer a port failure so that leftovers meet the next exchange; then the last step gets a hard failure at every port operation index in turn. Reply lines also come in lower / mixed case, blank, bare-LF, partial and as KiB-long noise, and the simulator uses its own knowledge of each line it wrote instead of the tree's decoder. Judged on the port log: exactly the frame encoding + CRLF written once, a read iff hello/query/request, exactly one line consumed (a sentinel line stays), result = decoding of that line, failures never turned into Ok. Placements exhaustive per case; cases sampled.",
    note=TRUSTED),
  "C17": dict(cat="exploration", design="5/C17",
    technique="deterministic two-node simulation over a simulated serial line: real controller and real ODK bridge on threads under a seeded scheduler with simulated clock; twin execution directly on the bus as oracle; per-line oracle at the bridge",
-   text="The complete serial path (real Sign, SerialSignBus, Frame codec, simulated full-duplex line with fragmentation / EINTR / short writes / pipelining / line time, real Odk, real VirtualSignBus) runs as two nodes whose every port operation is a scheduling point decided by the tape; port timeouts and the 30/100 ms pacing run on the simulated clock. A twin performs the same operation sequence directly on an identical bus; after each operation success must match success (and flip style) and every sign's state, type and pages must be equal. A second scenario feeds valid (upper, lower, mixed case), unknown and undecodable lines (bad checksum, bare LF, blank, non-ASCII digits, long noise) into the bridge, in front of the real virtual bus or of a scripted bus whose replies are drawn (nothing, the request itself, any message), and checks forwarding, write-back and error reporting line by line against what the simulator knows it wrote. Exploration: workloads and schedules are sampled.",
+   text="The complete serial path (real Sign, SerialSignBus, Frame codec, simulated full-duplex line with fragmentation / EINTR / short writes / pipelining / line time, real Odk, real VirtualSignBus) runs as two nodes whose every port operation is a scheduling point decided by the tape; port timeouts and the 30/100 ms pacing run on the simulated clock. A twin performs the same operation sequence directly on an identical bus; after each operation success must match success (and flip style) and every sign's state, type and pages must be equal. A second scenario feeds valid (upper, lower, mixed case), unknown (a quarter of them a real one-byte command's frame with bytes appended) and undecodable lines (bad checksum, bare LF, blank, non-ASCII digits, a sign character in place of a leading zero, long noise) into the bridge, in front of the real virtual bus or of a scripted bus whose replies are drawn (nothing, the request itself, any message), and checks forwarding, write-back and error reporting line by line against what the simulator knows it wrote. Exploration: workloads and schedules are sampled.",
    note=TRUSTED + " Error variants are not compared across paths (silence = Ok(None) directly, read timeout over serial)."),
  "C18": dict(cat="exploration", design="5/C18",
    technique="deterministic simulation with a simulated clock behind the sleep seam; intervals measured at the simulated port's write/read boundaries (simulated + real monotonic time)",
